@@ -178,11 +178,31 @@ func init() {
 		ir.Extra["inflate_err"] = InflateErr(s)
 		ir.Extra["decode_ok"] = DecodeOK(s)
 		ir.Extra["inflated_decode_ok"] = DecodeOK(Inflate(s))
+		ir.Extra["len"] = BLen(s)
 		return in.SymBytesOfStr(s)
 	}
-	// vDecodeOK(b): uninterpreted predicate of the content ("the decoder accepts these bytes")
+	// vDecodeOK(b): uninterpreted predicate of the content ("the decoder accepts these bytes"); every application
+	// is recorded (length, verdict) so that the native decoder can give the same verdict for the same message
 	intrinsics["vDecodeOK"] = func(in *Interp, fn *ssa.Function, a []Value) Value {
-		return DecodeOK(in.stringOfBytes(a[0].(*SliceV)))
+		c := in.stringOfBytes(a[0].(*SliceV))
+		if !c.Const {
+			ir := in.inputIdx["decoder"]
+			if ir == nil {
+				ir = in.addInput("decoder", "table", smt.BV(0, 64))
+			}
+			seen, _ := in.Ghost["decoder.seen"].(map[string]bool)
+			if seen == nil {
+				seen = map[string]bool{}
+				in.Ghost["decoder.seen"] = seen
+			}
+			if !seen[c.S] && len(seen) < 8 {
+				k := len(seen)
+				seen[c.S] = true
+				ir.Extra[fmt.Sprintf("%d.len", k)] = BLen(c)
+				ir.Extra[fmt.Sprintf("%d.ok", k)] = DecodeOK(c)
+			}
+		}
+		return DecodeOK(c)
 	}
 	intrinsics["vInflatedLen"] = func(in *Interp, fn *ssa.Function, a []Value) Value {
 		return BLen(Inflate(in.stringOfBytes(a[0].(*SliceV))))
